@@ -2,7 +2,7 @@
 //!
 //! N client threads put / delete / write multi-key batches / load / scan against ONE real
 //! `KeyValueStore` while a flush thread (`memtable_thread`) and 1..K compaction threads
-//! (`compaction_thread`) run.  The `lsmtk::verif` event hooks (hooks/lsmtk-kvs-events.diff) record,
+//! (`compaction_thread`) run.  The `lsmtk::verif` event hooks (/repo commit e3208be) record,
 //! in one global order, every critical section of `write`, `load`, `range_scan` and
 //! `_memtable_thread`; the harness adds invocation / response events of the client operations to
 //! the same log, so the log order is the global logical clock.
@@ -23,7 +23,7 @@
 //! Writes that FAIL are client operations too: the empty batch (the log refuses it, `empty-batch`) and
 //! a batch whose last entry has an over-long key or value (`key-too-large` / `value-too-large`), both
 //! refused after the write has taken its sequence number and its place in the wait list.  The hooks
-//! of hooks/lsmtk-kvs-write-failed-events.diff record where such a write fails and where it leaves
+//! of /repo commit f09c928 record where such a write fails and where it leaves
 //! the list (`kvs.write.abandon[.locked]` = the model's `wFail`); the oracle asks that it returns
 //! that error, that nothing of it is ever read, and that every other operation obeys the same
 //! rules as without it.  Directed: a failing write queued behind a batch parked between two of its
@@ -32,7 +32,7 @@
 //! event log (`write-failed-at-head-with-successor-waiting`: the head of the wait list sleeps
 //! because the write that left before it failed and woke nobody).
 //!
-//! A reader's clone of the tree version (`tree.snapshot`, hooks/lsmtk-kvs-snapshot-event.diff) is a
+//! A reader's clone of the tree version (`tree.snapshot`, /repo commit fe9fe14) is a
 //! step of its own in the trace and in the model.  The code makes it inside the critical section in
 //! which it takes mem / imm; the driver checks that no step needing the store mutex falls between
 //! the two events of one reader (`stuck@i:tree-snapshot-outside-lock`).  Schedules open that window:
